@@ -46,6 +46,7 @@ func hostileLines(r *vk.RNG, big bool) []string {
 		`10.0.0.5 - alice [r1] "GET /x" 200 512`, `10.0.0.5 - - [] "" - -`, `- - - [ "GET`, "a|b|c|d", "a - b - c",
 	}
 	lines = append(lines, string(r.Bytes(r.Range(1, 200))), string(r.Bytes(r.Range(1, 50))))
+	lines = append(lines, hostileJSONKeys...)
 	if big {
 		lines = append(lines,
 			strings.Repeat("x", 70000),
@@ -61,6 +62,11 @@ func hostileLines(r *vk.RNG, big bool) []string {
 }
 
 var hostileLabelVals = []string{"", "x", "1e999", "-1e999", "NaN", "Inf", "0x1p-2", "١٢٣", "1_000", "∞", "9223372036854775808", "1.7976931348623157e309", "99999999999999h", "1ns1h", "9999999999999999999EB", "1e30GB", "-5KB", "999.999.999.999", "::ffff:1.2.3.4", "fe80::1%eth0", "\xff", "a\x00b", strings.Repeat("9", 400), "{{.x}}", "<a>"}
+
+// JSON documents whose KEYS are hostile (they become label names): multi-byte runes before and after
+// characters a name cannot hold, empty and very long keys, keys that are only separators
+var hostileJSONKeys = []string{`{"é.":1}`, `{"größe.m":3,"ok":true}`, `{"温度/℃":21.5}`, `{"":1,".":2,"..":3}`, `{"a\u0000b":1}`, `{"ключ-значение":"v","k":{"вложенный.ключ":1}}`, `{"🙂🙂.🙂":1}`,
+	`{"x.é":1,"é":2,"é.x.é.":3}`, `{"` + strings.Repeat("ß.", 300) + `":1}`, `{"\ud83d\ude00-key":1}`, `{"a b\tc":1,"9":2,"-":3}`}
 
 func hostileRecs(r *vk.RNG, big bool) []Rec {
 	lines := hostileLines(r, big)
